@@ -3,14 +3,15 @@ module verifharness
 go 1.21
 
 require (
+	github.com/flynn/noise v1.0.0
 	go.brendoncarroll.net/p2p v0.0.0
 	go.uber.org/zap v1.24.0
 	golang.org/x/crypto v0.9.0
+	google.golang.org/protobuf v1.28.0
 )
 
 require (
 	github.com/davecgh/go-spew v1.1.1 // indirect
-	github.com/flynn/noise v1.0.0 // indirect
 	github.com/golang/protobuf v1.5.3 // indirect
 	github.com/pkg/errors v0.9.1 // indirect
 	github.com/pmezard/go-difflib v1.0.0 // indirect
@@ -26,7 +27,6 @@ require (
 	golang.org/x/sync v0.2.0 // indirect
 	golang.org/x/sys v0.8.0 // indirect
 	golang.zx2c4.com/wireguard v0.0.0-20220920152132-bb719d3a6e2c // indirect
-	google.golang.org/protobuf v1.28.0 // indirect
 	gopkg.in/yaml.v3 v3.0.1 // indirect
 )
 
